@@ -603,3 +603,8 @@ CHECKS["C04"]["outside"] = CHECKS["C04"]["outside"].replace("Moves.ComputePostCo
 
 CHECKS["C13"]["units"].append(py_unit("writes", "writes-C13", ["--props", "C13"]))
 CHECKS["C13"]["explanation"] += " SQL link: the ReadLogWithIdempotencyKey statement captured from the real store, evaluated on a symbolic logs table holding logs of several ledgers, returns a log iff THIS ledger holds one with the key, and then that log (the lookup the store model stands for)."
+
+CHECKS["C18"]["units"].append(unit(CTRL_PKG, CTRL_FILES, "^Harness_C25_", QT, flags={"labels": "^(C18:|no-panic)", "max-decisions": 3000}, reach=["end"]))
+CHECKS["C18"]["explanation"] += " Precondition of the SQL half: on the posting-list shapes of the C25 corpus (repeated accounts, source = destination, twelve accounts) and on the create requests of the operation list (a script that sets metadata on its own destination account, account metadata given next to the postings) the batch the real controller hands to UpsertAccounts names every account once."
+CHECKS["C18"]["outside"] = CHECKS["C18"]["outside"].replace("; duplicate addresses inside one batch", "; duplicate addresses inside one batch on the SQL side (the Go side shows the controller never builds one, on the C25 shapes)")
+CHECKS["C18"]["units"].append(unit(CTRL_PKG, CTRL_FILES, "^Harness_OPS_wet_create_", QT, flags={"labels": "^(C18:|no-panic)", "max-decisions": 4000}, reach=["end"]))
